@@ -4,23 +4,23 @@ import json, subprocess
 
 ENV = "GOFLAGS=-mod=mod GOPROXY=off GOSUMDB=off GOTOOLCHAIN=local"
 checks = {
- "C01": ("reference-model monitor + axis dual/partition relations over exhaustive per-document step enumeration", "7 C01"),
- "C02": ("reference-model monitor + probe-function trace monitor + metamorphic identities", "7 C02"),
- "C03": ("slice invariant monitor on every returned node-set + union-law relations", "7 C03"),
- "C04": ("reference-model monitor for conversions at API and expression level", "7 C04"),
+ "C01": ("reference-model monitor + axis dual/partition relations over exhaustive per-document step enumeration (store, independent and per-access-allocating Cursor implementations; threshold-sized and deep documents; ExprWhitespace spellings)", "7 C01"),
+ "C02": ("reference-model monitor + probe-function trace monitor + metamorphic identities; two-document queries; one 70 000-child node list per run", "7 C02"),
+ "C03": ("slice invariant monitor on every returned node-set (identity, membership, data-model document order) + union-law relations; lazily allocated cursors; concurrent queries on two trees; context-appending custom functions", "7 C03"),
+ "C04": ("reference-model monitor for conversions at API and expression level, typed entry points, documents through ReadXml and ReadHtml, two-document comparisons", "7 C04"),
  "C05": ("reference-model monitor over the 4x4 operand type matrix + operator relations", "7 C05"),
- "C06": ("IEEE-754 reference monitor (bit-pattern compare) for operators and numeric functions", "7 C06"),
- "C07": ("reference-model monitor over []rune + UTF-8 validity + string-function relations", "7 C07"),
+ "C06": ("IEEE-754 reference monitor (bit-pattern compare) for operators and numeric functions; operands as names, caller-ordered node-sets and caller-defined Result types; ExecAsNumber", "7 C06"),
+ "C07": ("reference-model monitor over []rune + UTF-8 validity + string-function relations; node-set arguments; builtin names shadowed in one call of each case", "7 C07"),
  "C08": ("reference recogniser/evaluator monitor over three renderings of typed ASTs + classification of mutated and random strings; counterfactual attribution to open grammar findings", "7 C08"),
- "C09": ("parallel-walk data-model monitor over randomised serialisations + encoding/xml as error oracle for mutated bytes", "7 C09"),
- "C10": ("structural invariant monitor on built trees + call-depth trace monitor inside Pull() + stack-capped child builds", "7 C10"),
+ "C09": ("parallel-walk data-model monitor over randomised serialisations, five reader delivery patterns, alternating parsers, option-hook scope + encoding/xml as error oracle for mutated bytes", "7 C09"),
+ "C10": ("structural invariant monitor on built trees (incl. overlapping builds and end-event payload variants) + call-depth trace monitor inside Pull() + stack-capped child builds", "7 C10"),
  "C11": ("reference-model monitor under random binding environments + renaming/re-serialisation invariance + user-function trace monitor", "7 C11"),
- "C12": ("reference-model monitor for node functions from every context node", "7 C12"),
+ "C12": ("reference-model monitor for node functions from every context node; documents through ReadHtml; deep chains; two-document queries", "7 C12"),
  "C13": ("history monitor: before/after deep snapshots of tree, caller-held NodeSets (all cap elements), binding maps, Grammar structural hash; repeat-execution determinism across per-call function libraries; cases run serially in shard child processes so library globals are observable", "7 C13"),
  "C14": ("Go race detector (GORACE log files, de-duplicated) over barrier-started concurrent Exec rounds + serial/concurrent result comparison + CLI -c N vs -c 1 block comparison under injected yields", "7 C14"),
  "C15": ("crash/abort monitor: hostile inputs in journaling child processes, recovered panics, (nil,nil) and 'xpath query panic' detection, per-case processor-time budget (rusage) as the termination monitor", "7 C15"),
  "C16": ("README-mapping reference monitor (parallel walk) + encoding/json as error oracle for every prefix and token edits; inputs delivered whole and piecewise (chunked / one-byte / cut-after-closer readers)", "7 C16"),
- "C17": ("html.Parse DOM as reference, parallel-walk monitor over generated tag soup", "7 C17"),
+ "C17": ("html.Parse DOM as reference, parallel-walk monitor over generated tag soup; five reader delivery patterns; two parsers pulled alternately", "7 C17"),
  "C18": ("split/unsplit composition relation (library vs library) + reference-model monitor from every start node", "7 C18"),
  "C19": ("reflection-based expected-value monitor computed from separate Exec calls; error/panic monitor for unfillable targets", "7 C19"),
  "C20": ("CLI stdout/stderr monitor against records computed through the library API; -m records re-parsed and compared with the selected subtree", "7 C20"),
